@@ -34,7 +34,7 @@ RULE = (
     "F81, HKY85, TN93, GTR, ssGN, GN; user predicate models whose alt predicates refine the null's partition of the six "
     "exchangeabilities; alt = null + one extra predicate), by scoping (alt parameter independent per edge / shared on an edge "
     "subset / independent on a subset; null lengths constrained equal; null parameter with a second value on an edge subset) "
-    "or both. Null parameters are random inside their bounds (rates 0.05-20, lengths 1e-3-2, random or data motif probs). "
+    "or both. About 30 % of the nulls with rate parameters hold one or more of them constant (unscoped rule, value at least a factor 2 from 1). Null parameters are random inside their bounds (rates 0.05-20, lengths 1e-3-2, random or data motif probs). "
     "Non-trivial = alt has at least 2 more free parameters than the null and the null's motif probabilities are unequal. "
     "init-codon: the same relation on codon pairs (MG94HKY/MG94GTR, CNFHKY/CNFGTR, GY94 or Y98 / H04G, Y98 / H04GK, "
     "H04G / H04GGK, omega or kappa per edge), 3 tips, 8-16 codons. "
@@ -42,7 +42,7 @@ RULE = (
     "case-declared bounds (default or tight) and optimiser settings (local Powell / global annealing then local / global only, "
     "max_evaluations 1-30, 50, 100, 400 or 3000, tolerance, global_tolerance, max_restarts, limit_action, annealer seed). Non-trivial = the run "
     "reached its evaluation limit. app: a chain of 2-3 nested models fitted through the hypothesis / model_collection apps "
-    "with per-model max_evaluations 1-100; non-trivial = at least 2 degrees of freedom. Distinct = distinct case encodings."
+    "with per-model max_evaluations 1-100, the null optionally with constant rate parameters (param_rules); non-trivial = at least 2 degrees of freedom. Distinct = distinct case encodings."
 )
 ASSUMPTIONS = [
     "pairs are nested for every motif-probability vector of the null: GTR (or any reversible model with unequal pi) inside ssGN is excluded; JC69/K80 (uniform pi) inside ssGN is included",
@@ -50,6 +50,7 @@ ASSUMPTIONS = [
     "alt likelihood functions are freshly constructed (rate parameters at their default 1.0) before initialise_from_nested",
     "user predicate models: the alt's reference (parameter-free) exchangeabilities are a subset of the null's reference exchangeabilities",
     "when the null carries a parameter with two values (edge subset vs rest), the alt is scoped either not at all, fully independent per edge, or shared on the same edge subset",
+    "constant null rate parameters are set through one unscoped rule (is_constant=True, value v with |log10 v| >= 0.3) and are never the null's two-valued parameter; in the app sub-check only the first model of a chain holds constants (param_rules), values 0.12-11 inside the default box",
     "one bin, one locus (initialise_from_nested raises NotImplementedError otherwise, as its source states)",
     "alignment symbols are A C G T, '-' and N only (gap and N fully ambiguous); codon alignments hold sense codons and '---'",
     "|alt.lnL - null.lnL| <= 1e-6 (absolute) after initialisation; motif probs / lengths equal to 1e-9; reference lnL agrees to 1e-7 * max(1,|lnL|)",
@@ -148,6 +149,8 @@ STRUCT_PAIRS = [
     ("JC69", "GN"), ("K80", "GN"), ("F81", "GN"), ("HKY85", "GN"), ("TN93", "GN"), ("GTR", "GN"),
     ("JC69", "ssGN"), ("K80", "ssGN"), ("ssGN", "GN"),
 ]  # fmt: skip
+# reversible null with rate parameters inside a non-reversible alt: projected values differ from the null's raw values
+CROSS_PAIRS = [("HKY85", "GN"), ("TN93", "GN"), ("GTR", "GN"), ("K80", "GN"), ("K80", "ssGN"), ("HKY85", "GN"), ("GTR", "GN")]
 SAME_PAIRS = [(m, m) for m in ["K80", "HKY85", "TN93", "GTR", "ssGN", "GN"]]
 CHAINS3 = [
     ("JC69", "K80", "HKY85"), ("K80", "HKY85", "GTR"), ("F81", "HKY85", "TN93"), ("HKY85", "TN93", "GTR"),
@@ -277,7 +280,10 @@ def apply_null_settings(lf, spec, edges):
     if spec.get("pi") is not None:
         lf.set_motif_probs(dict(zip(BASES, _norm_pi(spec["pi"]))))
     for p, v in sorted(spec["rates"].items()):
-        lf.set_param_rule(p, init=float(v))
+        if p in (spec.get("const") or []):
+            lf.set_param_rule(p, is_constant=True, value=float(v))
+        else:
+            lf.set_param_rule(p, init=float(v))
     sc = spec.get("scoped")
     if sc:
         lf.set_param_rule(sc["par"], edges=list(sc["edges"]), init=float(sc["value"]), is_independent=False)
@@ -428,6 +434,7 @@ def _null_settings(draw, mspec, edges, free_pi, allow_scoped=True):
     spec = {"rates": {p: _rate(draw) for p in params}, "pi": _pi(draw) if free_pi else None, "scoped": None}
     if allow_scoped and params and len(edges) >= 2 and draw(st.integers(0, 4)) == 0:
         spec["scoped"] = {"par": draw(st.sampled_from(params)), "edges": _subset(draw, edges, 1, len(edges) - 1), "value": _rate(draw)}
+    spec["const"] = _const_rates(draw, spec, params)
     if draw(st.integers(0, 3)) == 0:
         spec["len_mode"] = "equal"
         spec["lengths"] = _length(draw)
@@ -437,17 +444,34 @@ def _null_settings(draw, mspec, edges, free_pi, allow_scoped=True):
     return spec
 
 
+CONST_VALUES = [3.7, 0.2, 6.0, 0.12, 2.5, 0.35, 11.0]
+
+
+def _const_rates(draw, spec, params):
+    """names of null rate parameters held constant through an unscoped rule (about 30 % of the nulls that have rate
+    parameters); their values are moved well away from the default 1.0"""
+    free = [p for p in params if not (spec["scoped"] and spec["scoped"]["par"] == p)]
+    if not free or draw(st.integers(0, 9)) >= 4:
+        return []
+    chosen = _subset(draw, free, 1, len(free) if draw(st.booleans()) else 1)
+    for p in chosen:
+        if abs(math.log10(spec["rates"][p])) < 0.3:
+            spec["rates"][p] = draw(st.sampled_from(CONST_VALUES))
+    return chosen
+
+
 @st.composite
 def init_cases(draw):
     tkey = draw(st.sampled_from(["t3", "t4", "t4", "t4r", "t5", "t5c"]))
     model = TREES[tkey][1]
     edges = tree_edges(model)
     rows = draw(alignments(tree_tips(model)))
-    fam = draw(st.sampled_from(["struct"] * 5 + ["same"] * 2 + ["pred"] * 3))
+    fam = draw(st.sampled_from(["struct"] * 5 + ["cross"] * 2 + ["same"] * 2 + ["pred"] * 3))
     if fam == "pred":
         null_m, alt_m, pkind = draw(pred_pair())
     else:
-        n, a = draw(st.sampled_from(STRUCT_PAIRS if fam == "struct" else SAME_PAIRS))
+        n, a = draw(st.sampled_from(STRUCT_PAIRS if fam == "struct" else CROSS_PAIRS if fam == "cross" else SAME_PAIRS))
+        fam = "struct" if fam == "cross" else fam
         null_m, alt_m, pkind = {"kind": "named", "name": n}, {"kind": "named", "name": a}, fam
     null_uniform, alt_uniform = model_uniform(null_m), model_uniform(alt_m)
     # motif probability treatment
@@ -549,6 +573,10 @@ def exec_init(case) -> Soft:
         s.cls(f"pair:{pair_name[0]}<{pair_name[1]}")
     if null_c.get("scoped"):
         s.cls("null:two-valued-parameter")
+    if null_c.get("const"):
+        cross = model_family(null_m) != model_family(alt_m)
+        s.cls("null:constant-rate-parameter", "null:constant-rate-parameter/" + ("reversible->non-reversible" if cross else "same-class"))
+        s.cls("null:all-rates-constant" if len(null_c["const"]) == len(nparams) else "null:some-rates-constant")
     if unsourced:
         s.cls("alt:scoped-parameter-absent-from-null")
     if extra_inside:
@@ -889,8 +917,11 @@ def app_cases(draw):
     tkey = draw(st.sampled_from(["t3", "t4", "t4", "t5", "t5c"]))
     tmodel = TREES[tkey][1]
     rows = draw(alignments(tree_tips(tmodel), lengths=(20, 40, 60, 120)))
-    if draw(st.integers(0, 2)) == 0:
+    pick = draw(st.integers(0, 5))
+    if pick <= 1:
         chain = list(draw(st.sampled_from(CHAINS3)))
+    elif pick == 2:
+        chain = list(draw(st.sampled_from(CROSS_PAIRS)))
     else:
         chain = list(draw(st.sampled_from(STRUCT_PAIRS)))
     models = []
@@ -905,6 +936,10 @@ def app_cases(draw):
                 "tolerance": draw(st.sampled_from([1e-6, 1e-3])),
             }
         )
+    # the null may hold some of its rate parameters constant (param_rules of the model app)
+    nullpars = list(NUC[chain[0]][2])
+    if nullpars and draw(st.booleans()):
+        models[0]["const"] = {p: draw(st.sampled_from(CONST_VALUES)) for p in _subset(draw, nullpars, 1, len(nullpars) if draw(st.booleans()) else 1)}
     # once motif probs are free they stay free along the chain
     seen = False
     for m in models:
@@ -936,6 +971,8 @@ def exec_app(case) -> Soft:
                 kw["lower"], kw["upper"] = WIDE_BOUNDS
             if i == len(specs) - 1 and case.get("time_het_last"):
                 kw["time_het"] = case["time_het_last"]
+            if m.get("const"):
+                kw["param_rules"] = [dict(par_name=p, is_constant=True, value=float(v)) for p, v in sorted(m["const"].items())]
             apps.append(
                 get_app(
                     "model",
@@ -961,6 +998,9 @@ def exec_app(case) -> Soft:
     s.cls(f"app:{kind}", f"tree:{tkey}", "chain:" + "<".join(m["sm"] for m in specs), "time-het-alt" if case.get("time_het_last") else "homogeneous")
     for m in specs:
         s.cls(f"max_evaluations:{m['max_evaluations']}")
+    if specs[0].get("const"):
+        cross = NUC[specs[0]["sm"]][0] != NUC[specs[1]["sm"]][0]
+        s.cls("null:constant-rate-parameter", "null:constant-rate-parameter/" + ("reversible->non-reversible" if cross else "same-class"))
     what = f"{kind} {[{k: v for k, v in m.items()} for m in specs]} time_het_last={case.get('time_het_last')} tree {tkey}"
     if type(res).__name__ == "NotCompleted":
         s.fail(f"{kind}/not-completed", f"{what}: {str(res)[:300]}")
